@@ -26,7 +26,7 @@ C_LIGHT = 299792458.0
 
 def REQUIRED(tier):
     return ["kernel_direct", "filterbank_fold", "timeseries_fold", "pulse_train", "conservation_checks", "cell_count_checks", "gulp_identity_checks",
-            "regime:gulp<2*maxdelay", "regime:nbands_not_dividing", "regime:accel!=0", "regime:multi_block", "canary_audits", "regime:multi_file_input", "long_folds", "pulse_train_edge_bins", "regime:nbands>nchans", "regime:small_accel_long_fold"]
+            "regime:gulp<2*maxdelay", "regime:nbands_not_dividing", "regime:accel!=0", "regime:multi_block", "canary_audits", "regime:multi_file_input", "long_folds", "pulse_train_edge_bins", "regime:nbands>nchans", "regime:small_accel_long_fold", "subint_edge_folds"]
 
 
 def cases(tier, seed):
@@ -37,6 +37,10 @@ def cases(tier, seed):
         yield {"kind": "pulse", "seed": int(seed) * 100003 + i}
     for i in range(6 if tier == "quick" else 60):
         yield {"kind": "long", "seed": int(seed) * 100003 + i}
+    # series whose length is an exact multiple of the number of sub-integrations: the edges fall on integer samples
+    geoms = [(8826, 6), (11050, 13), (42476, 28), (67060, 35), (10000, 10), (4900, 49), (9800, 7), (30030, 11), (50050, 26), (21000, 21)]
+    for i, (N, nints) in enumerate(geoms if tier == "quick" else geoms + [(int(k * m), int(m)) for k, m in zip(range(401, 461), list(range(3, 33)) * 2)]):
+        yield {"kind": "edges", "N": N, "nints": nints, "seed": int(seed) * 100003 + i}
 
 
 def oracle_cells(N, maxdelay, index0, nfold, tsamp32, period32, accel32, total, nbins, nints):
@@ -122,9 +126,41 @@ def _long(case, ctx):
         ctx.sample({"kind": "long", "geom": one["geom"], "occupied_cells": int(np.count_nonzero(c1))})
 
 
+def _edges(case, ctx):
+    """Every sample belongs to the sub-integration floor(t * nints / N): with N a multiple of nints the first sample of sub-integration k is
+    t = k*N/nints exactly.  The input is k+1 throughout sub-integration k, so every cell of sub-integration k must equal k+1 whatever its phase."""
+    from sigpyproc.header import Header
+    from sigpyproc.timeseries import TimeSeries
+
+    N, nints = int(case["N"]), int(case["nints"])
+    rng = np.random.default_rng([case["seed"], 17])
+    tsamp = float(rng.choice([6.4e-5, 1e-3, 2.0 ** -13]))
+    nbins = min(int(rng.choice([4, 8, 16])), N // (nints * 10))    # enough samples per cell (the property's domain)
+    if nbins < 2:
+        ctx.skip("too few samples per cell for an edge fold"); ctx.evaluated(); return
+    period = float(rng.uniform(5, 40)) * tsamp
+    step = N // nints
+    x = (np.arange(N) // step + 1).astype(np.float32)
+    one = dict(case, geom={"tsamp": tsamp, "nbins": nbins, "period": period})
+    ctx.evaluated(); ctx.count("subint_edge_folds")
+    hdr = Header(filename="x.tim", data_type="time series", nchans=1, foff=-1.0, fch1=1400.0, nbits=32, tsamp=tsamp, tstart=58000.0, nsamples=N)
+    with np.errstate(all="ignore"):
+        cube = np.asarray(TimeSeries(x, hdr).fold(period, nbins=nbins, nints=nints).data)
+    want = np.arange(1, nints + 1, dtype=np.float64)[:, None, None] * np.ones((nints, 1, nbins))
+    bad = ~np.isnan(cube) & (cube != want)
+    if cube.shape != want.shape or np.any(bad):
+        k = int(np.argwhere(bad)[0][0]) if cube.shape == want.shape else -1
+        ctx.violation("sample-in-wrong-subintegration", f"TimeSeries.fold of {N} samples into {nints} sub-integrations: a cell of sub-integration {k} holds {cube[tuple(np.argwhere(bad)[0])] if k >= 0 else cube.shape} "
+                      f"although every sample of that sub-integration equals {k + 1} (an edge sample was filed with its neighbour)", one)
+        return
+    ctx.nontrivial_case(one)
+
+
 def run_case(case, ctx):
     if case["kind"] == "pulse":
         return _pulse(case, ctx)
+    if case["kind"] == "edges":
+        return _edges(case, ctx)
     if case["kind"] == "long":
         return _long(case, ctx)
     from sigpyproc.core import kernels
